@@ -249,6 +249,12 @@ class MemTransport(asyncio.Transport):
         if self._closing or self._eof:
             return
         self._eof = True
+        if getattr(self, "_rst_pending", False):
+            # the peer's RST has reached the kernel but the loop has not looked at the socket yet: shutdown(SHUT_WR) fails
+            # (grounded against a real socket in selftests/t_envconf.py)
+            import errno
+
+            raise OSError(errno.ENOTCONN, "Transport endpoint is not connected")
         self.conn.client_eof()
 
     def close(self):
@@ -433,6 +439,12 @@ class Conn:
         self.peer_open = False
         self.net.log.append(("peer-close", self.cid, self.net.loop.time()))
         return bool(self.transport and self.transport.feed_eof())
+
+    def peer_reset_arrives(self):
+        """The peer's RST is in the kernel; the loop processes it (peer_reset) at its next poll.  Until then write_eof() fails."""
+        self.peer_open = False
+        if self.transport is not None:
+            self.transport._rst_pending = True
 
     def peer_reset(self):
         self.peer_open = False
